@@ -210,6 +210,8 @@ func c12(r *core.Run) {
 	c12ReadsOnWritingTxn(r, "T3", rel)
 	r.Rule("T4", "the id of a stored value is its key minus the store's prefix, exactly (shared with C17.G9): the badger store never strips the prefix with a cutset function (Trim / TrimLeft / TrimRight with a variable set) - RebuildIndexes derives the id it indexes from the key, and an id whose first characters occur in the prefix would be indexed under a truncated id that no value has", 1)
 	c17ExactTokens(r, "T4", []string{rel}, "badgerstore")
+	r.Rule("T5", "what the rebuilt index returns is the stored id (shared with C13.K1): the reader of index entries splits at the last separator byte, so an index key that itself contains the separator (binary keys) cannot shift the boundary between key and id", 1)
+	c13ReaderSplitsLast(r, "T5", rel)
 	c12InitAnnounce(r, "I2", rel)
 	r.Rule("I3", "all-or-nothing seeding: in the function Init hands to the user's callback every return that did not collect the entry has recorded a non-nil error in the variable that the transaction body returns after the callback (or found one recorded already), and the transaction body returns that variable when it is non-nil before it writes anything; an invalid seed that is merely skipped lets Init commit the marker over a partial seed set", 2)
 	c12InitAllOrNothing(r, "I3", rel)
@@ -1995,6 +1997,31 @@ func queuedTaskRule(r *core.Run, rule string, ui *ssa.Function, okText, badText 
 		}
 		r.Check(good, rule, core.FuncName(cl), "updateIndex-only-inside-queued-task", p.InstrPos(c), okText, badText)
 	}
+	// ... and what the task does it does itself: no goroutine is started by index maintenance or its
+	// helpers (a `go notify(change)` per change lets the callbacks of two successive mutations of
+	// one id overtake each other although the tasks ran in order)
+	seen := map[*ssa.Function]bool{}
+	var unit []*ssa.Function
+	for _, h := range p.Helpers(ui) {
+		for _, f2 := range withAnon(h) {
+			if !seen[f2] {
+				seen[f2] = true
+				unit = append(unit, f2)
+			}
+		}
+	}
+	nGo := 0
+	for _, f2 := range unit {
+		for _, in := range instrsOf(f2) {
+			if g, ok := in.(*ssa.Go); ok {
+				nGo++
+				r.Bad(rule, core.FuncName(f2), "index-maintenance-starts-no-goroutine", p.InstrPos(g), "index maintenance hands part of its work (the query-change callbacks, an index write) to a new goroutine: the FIFO task queue then orders only the hand-over, and the work of a later mutation of the same id can run before that of an earlier one")
+			}
+		}
+	}
+	if nGo == 0 {
+		r.OK(rule, core.FuncName(ui), "index-maintenance-starts-no-goroutine", p.Pos(ui.Pos()), fmt.Sprintf("%d functions of the maintenance unit scanned, no go statement", len(unit)))
+	}
 }
 
 func instrsOf(fn *ssa.Function) []ssa.Instruction {
@@ -3037,4 +3064,31 @@ func c13KeyPresenceByNil(r *core.Run, rule, rel string) {
 	if bad == 0 {
 		r.Check(nKeys > 0, rule, rel, "key-presence-tested-by-nil-not-length", "-", fmt.Sprintf("%d index-key computations; no decision is taken from a key's length", nKeys), "no call of an index's Key function found (rule went vacuous)")
 	}
+}
+
+// c13ReaderSplitsLast: the reader of index entries (FetchCollection) takes the
+// resource id after the *last* separator byte of the entry - index keys are
+// arbitrary bytes and may contain the separator, ids may not. (C13.K1's reader
+// clause under another property's name.)
+func c13ReaderSplitsLast(r *core.Run, rule, rel string) {
+	p := r.P
+	fc := methodNamed(p, rel, "IndexQuery", "FetchCollection")
+	if fc == nil {
+		r.Unres(rule, rel+".IndexQuery.FetchCollection", "missing")
+		return
+	}
+	var last, first ssa.CallInstruction
+	for _, f2 := range p.Scope(fc) {
+		for _, c := range core.Calls(f2) {
+			if cal := c.Common().StaticCallee(); cal != nil {
+				switch cal.String() {
+				case "bytes.LastIndexByte", "bytes.LastIndex":
+					last = c
+				case "bytes.IndexByte", "bytes.Index", "bytes.Cut", "bytes.SplitN", "bytes.Split":
+					first = c
+				}
+			}
+		}
+	}
+	r.Check(last != nil && first == nil, rule, core.FuncName(fc), "reader-splits-at-last-separator", posOf(p, last), "the id is what follows the last separator of the entry", "the reader of index entries does not (only) split at the last separator: an index key that contains the separator byte (a binary key) yields a wrong id, a truncated key for the filter, or drops the entry")
 }
